@@ -4,7 +4,7 @@ import sys
 
 from mc.engine import import_holpy
 
-MODULES = ['mc.holsem']
+MODULES = ['mc.holsem', 'mc.numeric']
 
 
 def main():
